@@ -74,15 +74,16 @@ func c08(e *Env) {
 	}
 	shape := c.Choose("c08shape", 4) // 0 plain, 1 restarts, 2 late joiners, 3 re-prepare failures
 	p := fwdParams{
-		Hosts:        2 + c.Choose("hosts", 3),
-		NumConns:     1 + c.Choose("numconns", 2),
-		Clients:      1 + c.Choose("clients", 3),
-		OpsPerClient: 0,
-		MaxInflight:  1 + c.Choose("inflight", 6),
-		Kinds:        []int{0, 1},
-		Compression:  []string{"", "", "lz4", "snappy"},
-		Versions:     []primitive.ProtocolVersion{primitive.ProtocolVersion4, primitive.ProtocolVersion4, primitive.ProtocolVersion3},
-		FaultFree:    true,
+		Hosts:          2 + c.Choose("hosts", 3),
+		NumConns:       1 + c.Choose("numconns", 2),
+		Clients:        1 + c.Choose("clients", 3),
+		OpsPerClient:   0,
+		MaxInflight:    1 + c.Choose("inflight", 6),
+		Kinds:          []int{0, 1},
+		Compression:    []string{"", "", "lz4", "snappy"},
+		Versions:       []primitive.ProtocolVersion{primitive.ProtocolVersion4, primitive.ProtocolVersion4, primitive.ProtocolVersion3},
+		FaultFree:      true,
+		TracedPrepares: true,
 	}
 	f := newFwd(e, p, cfg)
 	if !f.bootOK() || !f.connectClients() {
